@@ -202,6 +202,9 @@ def run(chk):
     wide(chk, pop, rng)
     grouping(chk, rng)
     discriminants(chk, rng)
+    from .. import apirules
+    apirules.run(chk, 'monobit', 'C15')
+    apirules.run(chk, 'hamming_weight', 'C15')
 
 
 def replay(chk, path):
